@@ -239,6 +239,7 @@ class Inst(object):
         self.vals, self.snap, self.persisted, self.explicit = vals, snap, persisted, set(explicit)
         self.stale = False
         self.explicit_pk = set()
+        self.stale_prev = {}        # collection attr -> value it had before it was emptied in place and saved (see _instance_blame)
 
 
 # ---------------------------------------------------------------------------------------------------------
@@ -288,8 +289,17 @@ class World(object):
         try:
             res = self.db.execute(ast)
         except cqlinterp.Invalid as e:
-            inner = ast["statements"] if ast["stmt"] == "batch" else [ast]
-            shape = "+".join(sorted(set(x["stmt"].upper() + ("-IF" if x.get("if") else "") for x in inner))) + (":BATCH" if ast["stmt"] == "batch" else "")
+            bad = ast
+            if ast["stmt"] == "batch":
+                for inner in ast["statements"]:
+                    try:
+                        self.db._plan(inner, ast)
+                    except cqlinterp.Invalid:
+                        bad = inner
+                        break
+                    except Exception:  # noqa
+                        pass
+            shape = bad["stmt"].upper() + ("-IF" if bad.get("if") else "") + (":BATCH" if ast["stmt"] == "batch" else "")
             self.invalid = (_reason(str(e)) + ":" + shape, "Cassandra rejects %r: %s" % (text[:300], e))
             raise _Rejected(str(e))
         except (cqlinterp.Unsupported, cqlterm.Unsupported) as e:
@@ -446,7 +456,8 @@ def interpret(case, ctx):
             if ctx._failures:
                 return "failed"
             if expect_lwt:
-                ctx.fail(key + ["missing-LWTException"], "the condition does not hold on the row but no LWTException was raised")
+                ctx.fail((key[:1] + list(tags) if tags else key) + ["missing-LWTException"],
+                         "the condition does not hold on the row but no LWTException was raised   [during %s]" % key[-1])
                 return "failed"
             return "ok"
 
@@ -528,7 +539,6 @@ def interpret(case, ctx):
                     both({"put": lambda c_: c_.__setitem__(x, "y" if c_.get(x) != "y" else "x"), "del": lambda c_: c_.pop(x, None),
                           "clear": lambda c_: c_.clear()}[what])
                 h.vals[a] = _tag(a, cur)
-                blame[a] = blame.get(a, "instance") + ":" + what
 
         def check_instance(h, where):
             for a in meta.attrs:
@@ -567,11 +577,22 @@ def interpret(case, ctx):
                 obj.batch(batch)
             pre_partial = any(a in _COLLS and h.snap.get(a) is not None and h.vals[a] is not None for a in changed)
             tags = ()
-            if not writes:
+            nulled = [a for a in meta.attrs if h.vals[a] is None and (a in changed or a in h.explicit)
+                      and not (meta.has_ck and c is None and a not in meta.static)]
+            written = [a for a in changed if h.vals[a] is not None]
+            static_only_instance = meta.has_ck and c is None
+            if static_only_instance:
+                tags = ("static-only-instance",)
+            elif not writes:
                 tags = ("instance", "nothing-to-write")
-            elif meta.has_ck and c is not None and not insert_path and all(
-                    a in meta.static for a in list(changed) + [a for a in meta.attrs if h.vals[a] is None and a in h.explicit]):
+            elif meta.has_ck and not insert_path and ((written and all(a in meta.static for a in written)) or
+                                                      (nulled and all(a in meta.static for a in nulled))):
                 tags = ("static-only-change",)
+            for a in meta.attrs:
+                blame[a] = "static-only-instance" if static_only_instance else (
+                    "refilled-after-in-place-clear" if a in h.stale_prev else "instance")
+            if static_only_instance:
+                blame["*"] = "static-only-instance"
             outcome = run(["C35.run", method], (obj.save if method == "save" else obj.update), expect_lwt, tags)
             if outcome != "ok":
                 return outcome
@@ -585,6 +606,13 @@ def interpret(case, ctx):
                 apply_changes(h, changed)
             static_touched = any(a in meta.static for a in (meta.attrs if insert_path else changed))
             mark_stale(k, c, static_touched, True, but=h)
+            # a container emptied *in place* is not "changed" for the mapper: it keeps comparing with the value before
+            for a in list(h.stale_prev):
+                if h.vals[a] != h.stale_prev[a]:
+                    del h.stale_prev[a]
+            for a in changed:
+                if a in _COLLS and h.vals[a] is None and h.snap.get(a) is not None and a not in h.explicit:
+                    h.stale_prev[a] = h.snap[a]
             h.snap = copy.deepcopy(h.vals)
             h.persisted = True
             h.explicit = set()
@@ -690,6 +718,10 @@ def interpret(case, ctx):
                 if outcome != "ok":
                     return outcome
                 explicit = set(given)
+                if meta.has_ck and c is None:
+                    for a in meta.attrs:
+                        blame[a] = "static-only-instance"
+                    blame["*"] = "static-only-instance"
                 if any(v is None for v in vals.values() if True) and any(_null(given.get(a)) for a in given):
                     feat["null"] = True
                 apply_insert(k, c, vals, explicit)
@@ -830,7 +862,9 @@ def interpret(case, ctx):
                     obj.batch(batch)
                 writes = [a for a, v in kw_t.items() if not _null(v)] + [a for a, v in kw_t.items() if _null(v)]
                 outcome = run(["C35.run", "blind"], obj.update, (bool(iff_kw) and not holds) or (if_exists and not sh.exists(k, c)),
-                              ("static-only-change",) if (meta.has_ck and all(a in meta.static for a in kw_t)) else ())
+                              ("static-only-change",) if (meta.has_ck and (
+                                  ([a for a, v in kw_t.items() if not _null(v)] and all(a in meta.static for a, v in kw_t.items() if not _null(v))) or
+                                  ([a for a, v in kw_t.items() if _null(v)] and all(a in meta.static for a, v in kw_t.items() if _null(v))))) else ())
                 if outcome != "ok":
                     return "ok" if outcome == "lwt" else outcome
                 for a, v in kw_t.items():
@@ -1136,7 +1170,7 @@ def compare(ctx, w, sh, meta, D, blame):
             return False
         for a in meta.attrs:
             if g.get(db_of[a]) != x.get(a):
-                kind = "static" if a in meta.static else ("scalar" if a in _SCALARS else {"s": "set", "l": "list", "m": "map", "sm": "map"}[a])
+                kind = "scalar" if a in _SCALARS else {"s": "set", "l": "list", "m": "map", "sm": "map"}[a]
                 ctx.fail(["C35.state", "column", kind, blame.get(a, blame.get("*", "?"))], "row %r column %s: the table has %r, the reference %r   [after %s]" % (
                     key, a, g.get(db_of[a]), x.get(a), blame.get(a, blame.get("*", "?"))))
                 return False
